@@ -381,8 +381,6 @@ def gen_sessions(rng, reps):
             kinds = SCALAR_KINDS if bs == 1 else BLOCK_KINDS
             for kind in kinds:
                 for ftype in (["unit", "none", "mean"] if bs == 1 else ["unit", "none", "slip"]):
-                    if kind == "poly" and ftype == "mean":
-                        continue   # filter_def of the mean filter inside the polynomial loop is not modelled
                     n = rng.choice([3, 4, 5]) if bs == 1 else rng.choice([2, 3])
                     style, rows = gen_pattern(rng, n, "diag" if kind == "diag" else rng.choice(["tri", "sparse", "dense", "arrow", "band2"]))
                     p = rng.choice([0, 1, 2]) if kind == "ilu" else (rng.choice([1, 2, 3]) if kind == "poly" else 0)
